@@ -52,8 +52,8 @@ def _get_constancy(func_t: ContractFunctionT) -> Constancy:
 class IDGenerator:
     """Assign unique IDs to functions."""
 
-    def __init__(self):
-        self._id = 0
+    def __init__(self, start: int = 0):
+        self._id = start
 
     def ensure_id(self, fn_t: ContractFunctionT) -> None:
         if fn_t._function_id is None:
@@ -177,7 +177,14 @@ def generate_deploy_venom(
         immutables_len: Size of immutables section in bytes
         cbor_metadata: Optional CBOR-encoded metadata to append to bytecode
     """
-    id_generator = IDGenerator()
+    # continue numbering after the ids already handed out (for the runtime
+    # code, or by the legacy pipeline which `-f metadata` runs), so that a
+    # function's id -- which is visible in the `metadata` output -- does not
+    # depend on which output was requested first
+    used_ids = [
+        fn_t._function_id for fn_t in module_t.reachable_functions if fn_t._function_id is not None
+    ]
+    id_generator = IDGenerator(start=max(used_ids, default=-1) + 1)
 
     # Create deploy IR context
     deploy_ctx = IRContext()
